@@ -74,7 +74,11 @@ func (t *SymbolTable) DefineBuiltin(index int, name string) *Symbol {
 		Index: index,
 		Scope: ScopeBuiltin,
 	}
-	t.store[name] = symbol
+	if cur, ok := t.store[name]; !ok || cur.Scope == ScopeBuiltin {
+		// a variable the embedder (or an earlier compilation sharing this
+		// table) defined under this name keeps shadowing the builtin
+		t.store[name] = symbol
+	}
 	t.builtinSymbols = append(t.builtinSymbols, symbol)
 	return symbol
 }
